@@ -83,6 +83,7 @@ PROPS['C13'] = {
     'kani': [
         ('geo', 'c13.rs', r'^c13_k_(inverse_none_iff_singular|inverse_f64_none_iff_singular|builders)$', 'complete', 'quick'),
         ('geo', 'c13.rs', r'^c13_k_(inverse_roundtrip|compose_many|inverse_f64_turn|inverse_f64_scale2)', 'bounded', 'quick'),
+        ('geo', 'c06.rs', r'^c06_k_centroid_scales_exactly', 'bounded', 'quick'),
     ],
     'twins': {
         'C13.V.compose': r'^c13_k_(compose_many|builders)',
@@ -211,8 +212,7 @@ PROPS['C06'] = {
     'verus': [],
     'kani': [
         ('geo', 'c06.rs', r'^c06_k_(weighted_centroid_algebra|operation_none_iff_empty|centroid_none_iff_empty)$', 'complete', 'quick'),
-        ('geo', 'c06.rs', r'^c06_k_operation_early_outs$', 'bounded', 'quick'),
-        ('geo', 'c06.rs', r'^c06_k_zero_area_polygon', 'bounded', 'thorough'),
+        ('geo', 'c06.rs', r'^c06_k_(operation_early_outs|zero_area_polygon|centroid_scales_exactly)', 'bounded', 'quick'),
     ],
     'trusted': ['f64::hypot is replaced by the model sqrt(a*a + b*b) (the libm function is a foreign call Kani cannot execute)',
                 'accumulator algebra: complete over all dimension pairs and finite f64 weights up to 1e100'],
